@@ -476,6 +476,31 @@ def _contract_then(w, E, raw):
     return Prog(out.expr, ref, part.dsk)
 
 
+def _rev_block(b):
+    """a user block function that is not element-wise: the block, reversed along axis 0"""
+    return b[::-1]
+
+
+_rev_block = user_kernel(_rev_block)
+
+MAP_BLOCKS_TAKE_SITE = "map_blocks:take-pushed-through-a-function-that-is-not-element-wise"
+
+
+def _at_site(prog, site):
+    prog.site = site
+    return prog
+
+
+def p_map_rev(w, E, p, site=None):
+    """map_blocks(lambda b: b[::-1], x): every block of the layout x advertises, reversed in place"""
+    coll = w.fn(NC, "new_collection")(p.node)
+    chunks = tuple(coll.chunks[0])
+    out = w.fn("dask_array._map_blocks", "map_blocks")(_rev_block, coll, dtype=np.dtype("f8"), meta=np.empty((0,) * len(coll.chunks)))
+    b0 = cumsum0(chunks)
+    ref = concatenate_nested([p.ref[b0[j]:b0[j + 1]][::-1] for j in range(len(chunks))])
+    return Prog(out.expr, ref, dict(p.dsk), site=site)
+
+
 def p_arange(w, E, step, blocks):
     """arange(start, start + n*step, step) with symbolic start and chunk sizes; values are start + p*step"""
     import z3
@@ -895,7 +920,8 @@ def ints_in_range(raw, shape):
 
 
 # programs that demonstrate a recorded finding are run only by the properties the finding is recorded under
-ONLY_FOR = {"map_blocks(np.add,sliding_window_view(x[1,1,1,1],W).sum(-1),y)": ("C01", "C02")}
+ONLY_FOR = {"map_blocks(np.add,sliding_window_view(x[1,1,1,1],W).sum(-1),y)": ("C01", "C02"),
+            "map_blocks(reverse,x[2,3])[[1,2,4]]": ("C02",)}
 
 
 # program descriptions: name -> builder(w, E) -> Prog
@@ -962,6 +988,9 @@ def programs(tier):
     reg("map_blocks(first,(x[2,2,2,2,2,2]+y[1,11])[[9,7,5]]*2)", lambda w, E: p_map_first(w, E, p_elemwise(w, operator.mul, p_take(w, E, _add_concrete(w, E, (2,) * 6, (1, 11)), 0, [9, 7, 5]), 2.0)), 3)
     reg("blockwise(twice,x[4,8],y[11,1],adjust_chunks=2n)[a:b]", lambda w, E: p_slice(w, p_blockwise_twice(w, E, source(w, E, "x", (2,), chunks=[(4, 8)]), source(w, E, "y", (2,), chunks=[(11, 1)])), raw_index(E, (F,))), 6)
     reg("contract(a[s,s|1,1,2],b[3,1])[a:].sum(1)", lambda w, E: _contract_then(w, E, raw_index(E, ((1, 0, None),))), 6)
+    reg("map_blocks(reverse,x2)[a:b]", lambda w, E: p_slice(w, p_map_rev(w, E, source(w, E, "x", (2,))), raw_index(E, (F,))), 4)
+    reg("map_blocks(reverse,x2)[i]", lambda w, E: p_slice(w, p_map_rev(w, E, source(w, E, "x", (2,))), raw_index(E, ("i",))), 3)
+    reg("map_blocks(reverse,x[2,3])[[1,2,4]]", lambda w, E: _at_site(p_take(w, E, p_map_rev(w, E, source(w, E, "x", (2,), chunks=[(2, 3)])), 0, [1, 2, 4]), MAP_BLOCKS_TAKE_SITE), 3)
     reg("map_blocks(first,x3[::-1])", lambda w, E: p_map_first(w, E, p_slice(w, source(w, E, "x", (3,)), raw_index(E, REV))), 2)
     # creation with affine values: slices fold into start/step (Arange._accept_slice)
     reg("arange(start,stop,2;3 blocks)", lambda w, E: p_arange(w, E, 2, 3), 2)
